@@ -190,6 +190,7 @@ func runC12(cx *Ctx, r *Report) {
 	cx.c12ImportLoops(r)
 	cx.c12Validators(r)
 	cx.c12ValidatorAccumulators(r)
+	cx.c12MapWriteBack(r)
 	r.requireCount("G1-runtime-exported", 55)
 	r.requireCount("G1-export-imported", 30)
 	r.requireCount("G1-derived-rebuilt", 15)
@@ -946,4 +947,113 @@ func orderSensitiveUpdate(p *ssa.Phi, u ssa.Value, depth int) string {
 		return "overwrites it with a per-element value without comparing the two (the last element wins)"
 	}
 	return "updates it non-commutatively"
+}
+
+// ------------------------------------------------------------- G7: map values written back in exports
+
+// c12MapWriteBack: Go map values are copies. In the export closure, a struct
+// read from a map into a local and then modified (a field store) must be stored
+// back into the same map on every path afterwards; otherwise the modification
+// (typically an appended list element) is silently lost from the export.
+func (cx *Ctx) c12MapWriteBack(r *Report) {
+	n := 0
+	for _, m := range []string{"coinswap", "farm", "htlc", "mt", "nft", "oracle", "random", "record", "service", "token"} {
+		var roots []*ssa.Function
+		for _, e := range cx.entriesOfModule(m, "genesis") {
+			if e.Name == "ExportGenesis" {
+				roots = append(roots, e.Fn)
+			}
+		}
+		reach := cx.Reachable(roots, nil)
+		for _, f := range reach.Order {
+			if f.Blocks == nil || !isIrismodFunc(f) {
+				continue
+			}
+			for _, b := range f.Blocks {
+				for _, ins := range b.Instrs {
+					lk, ok := ins.(*ssa.Lookup)
+					if !ok {
+						continue
+					}
+					if _, isMap := lk.X.Type().Underlying().(*types.Map); !isMap {
+						continue
+					}
+					// the looked-up value (or its first component) stored into a local
+					var vals []ssa.Value
+					if lk.CommaOk {
+						for _, ref := range *lk.Referrers() {
+							if ex, ok := ref.(*ssa.Extract); ok && ex.Index == 0 {
+								vals = append(vals, ex)
+							}
+						}
+					} else {
+						vals = append(vals, lk)
+					}
+					for _, v := range vals {
+						if _, isStruct := v.Type().Underlying().(*types.Struct); !isStruct {
+							continue
+						}
+						for _, ref := range *v.Referrers() {
+							st, ok := ref.(*ssa.Store)
+							if !ok || st.Val != v {
+								continue
+							}
+							local, ok := st.Addr.(*ssa.Alloc)
+							if !ok {
+								continue
+							}
+							// modifications of the local after the lookup
+							for _, lr := range *local.Referrers() {
+								fa, ok := lr.(*ssa.FieldAddr)
+								if !ok {
+									continue
+								}
+								for _, fr := range *fa.Referrers() {
+									mod, ok := fr.(*ssa.Store)
+									if !ok || mod.Addr != fa {
+										continue
+									}
+									if !blockReaches(st.Block(), mod.Block()) {
+										continue
+									}
+									n++
+									isBack := func(i ssa.Instruction) bool {
+										mu, ok := i.(*ssa.MapUpdate)
+										if !ok || pureExpr(mu.Map, 0) != pureExpr(lk.X, 0) {
+											return false
+										}
+										ld, ok := mu.Value.(*ssa.UnOp)
+										return ok && ld.X == local
+									}
+									okBack := false
+									// same block: a write-back after the modification
+									seenMod := false
+									for _, i2 := range mod.Block().Instrs {
+										if i2 == mod {
+											seenMod = true
+										} else if seenMod && isBack(i2) {
+											okBack = true
+										}
+									}
+									if !okBack {
+										okBack = len(mod.Block().Succs) > 0
+										for _, s := range mod.Block().Succs {
+											if !mustReachPSPred(f, s, mod.Block(), isBack) {
+												okBack = false
+											}
+										}
+									}
+									key := m + "|" + anchorOf(cx, f) + "|" + local.Comment
+									r.check(okBack, "G7-export-map-writeback", key, cx.P.Pos(mod.Pos()), "a map value copied into `"+local.Comment+"` and modified is stored back into the map on every path", "in "+shortFn(f)+" (export closure) the struct `"+local.Comment+"` is read from a map, modified, and not stored back into the map on every path: map values are copies, so the modification (e.g. an appended element) is lost from the exported genesis")
+								}
+							}
+						}
+					}
+				}
+			}
+		}
+	}
+	if n < 1 {
+		r.toolErr("no modified map value found in any export closure (≥1 confirmed: random pending requests)")
+	}
 }
